@@ -239,10 +239,11 @@ Definition repaired (fl : cflags) : Prop :=
 Lemma model_spec_run_true fl : repaired fl -> forall ops k, cinv fl zero k -> model_spec_run fl k ops = true.
 Proof.
   intros (Hcc & Htp & Hrp & Hra). induction ops as [|o ops IH]; intros k Hi; [reflexivity|].
-  destruct o as [o|n ents b r bl|n ents b r bl|names obs]; cbn [model_spec_run].
+  destruct o as [o|n ents b r bl|n ents b r bl|l|names obs]; cbn [model_spec_run].
   - apply IH. now apply apply_cop_inv.
   - apply IH. unfold do_pair. rewrite Hra. cbn [orb]. apply apply_cop_inv; try assumption. now apply do_batch_inv.
   - apply IH. unfold do_pairc. apply apply_cop_inv; try assumption. now apply do_batch_inv.
+  - apply IH. now apply do_setpubm_inv.
   - rewrite (snap_spec_predict fl k names Hcc Hi). cbn [andb]. now apply IH.
 Qed.
 
